@@ -88,7 +88,9 @@ func (pl *Playlist) M3u8(token string) ([]byte, error) {
 		}
 	}
 
-	return w.Bytes(), nil
+	// w goes back to m3u8Pool when this function returns and the next call
+	// rewrites its array: hand out a copy, not a slice of the pooled buffer.
+	return append([]byte(nil), w.Bytes()...), nil
 }
 
 // Segment 获取 segment
